@@ -608,7 +608,8 @@ func (in *Interp) valModel(raw map[string]string, sc *smt.Script) map[string]ter
 // modelValue returns a value of int term t consistent with the path condition.
 func (in *Interp) modelValue(t *term.Term) (int64, bool) {
 	pick := term.Var(t.Sort, fmt.Sprintf("pick!%d", t.ID))
-	asserts := in.withFacts(append(append([]*term.Term{}, in.pc...), term.Eq(pick, t)))
+	eq := term.Eq(pick, t)
+	asserts := in.withFacts(append(in.relevantPC(eq), eq))
 	sc := smt.Build(in.feasMode(), asserts)
 	kind := intSolver(asserts)
 	if in.job.Mode != "real" && hasFloat(asserts) {
